@@ -168,6 +168,28 @@ def gen_retry(rng, tier, timers_only=False):
             elif r < 0.2:
                 acts.append(rng.choice(["Rs", "Rz", "X", "Rn"]))
         return "retry|1,%d,%d,%d,%d,%d,%d|%s" % (tries, timeout, maxt, jmode, flags & ~64, t0, ";".join(acts))
+    if not timers_only and rng.random() < 0.07:
+        # DNS cookies: a server that answers BADCOOKIE k times in a row with the same / a changing /
+        # alternating server cookie, then answers or stays silent.  At most COOKIE_RESEND_MAX
+        # re-sends may come from that, the last one over TCP.  (No 'f' here: a reply without a
+        # cookie from a server that has shown one is dropped, with timers of its own - C17.)
+        k = rng.choice([1, 2, 3, 4, 4, 5, 6, 8, 12])
+        pat = rng.choice(["same", "changing", "alternating", "mixed"])
+        acts = []
+        for i in range(k):
+            kind = {"same": "K", "changing": "k", "alternating": "kK"[i % 2], "mixed": rng.choice("kKb")}[pat]
+            r = rng.random()
+            if r < 0.75:
+                acts.append("R" + kind + (str(rng.choice([2, 3])) if rng.random() < 0.1 else ""))
+            elif r < 0.9:
+                acts.append("B" + kind + rng.choice(["k", "K", "s", "a", "g", "kk"]))
+            else:
+                acts.append(rng.choice(["t", "Rs", "X", "e"]))
+                acts.append("R" + kind)
+        acts.append(rng.choice(["Ra", "Ra", "", "Rx", "Rs", "t"]))
+        f2 = flags & ~(16 | 32 | 64)          # UDP first, EDNS on, retries allowed
+        return "retry|%d,%d,%d,%d,%d,%d,%d|%s" % (rng.choice([1, 1, 2, 3]), rng.choice([1, 1, 2, 3, 4]), timeout, maxt, jmode, f2, t0,
+                                                    ";".join(a for a in acts if a))
     style = "timers" if timers_only else rng.choice(["timeouts", "timeouts", "mixed", "mixed", "replies", "faults", "servers", "dups", "batches", "batches"])
     n = 0 if style == "timeouts" else rng.choice([1, 2, 4, 8, 16, 30])
     cur = S
